@@ -103,6 +103,8 @@ pub struct Ctx {
     pub stats: Mutex<Stats>,
     pub start: Instant,
     pub strict: bool,
+    /// proptest shrink budget (lower it for checks whose single evaluation is expensive)
+    pub shrink_iters: std::sync::atomic::AtomicU32,
     stream_counter: Mutex<u64>,
 }
 
@@ -130,6 +132,7 @@ impl Ctx {
             stats: Mutex::new(Stats::default()),
             start: Instant::now(),
             strict: false,
+            shrink_iters: std::sync::atomic::AtomicU32::new(3000),
             stream_counter: Mutex::new(0),
         }
     }
@@ -279,7 +282,7 @@ impl Ctx {
                             cases: per as u32,
                             rng_seed: RngSeed::Fixed(stream_seed),
                             failure_persistence: None,
-                            max_shrink_iters: 3000,
+                            max_shrink_iters: self.shrink_iters.load(Ordering::Relaxed),
                             max_global_rejects: 1 << 30,
                             max_local_rejects: 1 << 30,
                             ..Config::default()
